@@ -764,6 +764,7 @@ func init() {
 			c.PeerGate("C16")
 			c.ShareOwner("C16")
 			c.IdentifierPure("C16")
+			c.PeerNamesUnique("C16")
 			c.ReplyRequestScoped("C16") // the share leaves in a response object no other request can touch before it is sent
 			c.TLSConfig("C19")          // "the authenticated name" is the name of a certificate the handshake verified against the configured authority
 		},
